@@ -21,7 +21,7 @@ def TR1 (es : List (Tid × Ev)) (nR : Nat) : Prop :=
 def IP (es : List (Tid × Ev)) (s : St) : Prop :=
   ∀ (i : Nat) (u : Tid) (e : Ev) (m : Nat), es[i]? = some (u, e) → e.initR = some m →
     buildRec (s.pc u) = some m ∨
-      ∃ (p : Nat) (o : Ord) (a c : Option Nat), i < p ∧ es[p]? = some (u, Ev.cas o a (some m) true c)
+      ∃ (p : Nat) (o : Ord) (a c : Option Nat), i ≤ p ∧ es[p]? = some (u, Ev.cas o a (some m) true c)
 
 /-- `RP` a thread that holds a record privately (constructing it, or having taken it off the log) knows its initialisation -/
 def RP (w : Ords) (sel : Bool) (es : List (Tid × Ev)) (s : St) : Prop :=
@@ -35,7 +35,8 @@ def RK (w : Ords) (sel : Bool) (es : List (Tid × Ev)) (s : St) : Prop :=
 
 /-- a record is initialised by the thread that is constructing it -/
 theorem initR_facts {s s' : St} {t : Tid} {e : Ev} {m : Nat} (hS : Step s t e s') (hm : e.initR = some m) :
-    buildRec (s.pc t) = some m ∧ buildRec (s'.pc t) = some m := by
+    buildRec (s.pc t) = some m ∧
+      (buildRec (s'.pc t) = some m ∨ ∃ o a c, e = .cas o a (some m) true c ∧ s'.log = m :: s.log) := by
   cases hS <;> simp [Ev.initR] at hm <;> subst hm <;> simp [buildRec, *]
 
 /-- the thread keeps constructing the record until it has pushed it -/
